@@ -79,6 +79,28 @@ CHECKS['C10'] = dict(
          "parsers are run on every tree TLC builds for every key set x 7 label policies and on prunings of them.",
     note="RefKind transcription from memory of dict.cpp (cross-checked by the MinKind lemma); pruned branches carry library hashes (inputs)",
     tech="TLC lemma over all label triples + TLC-generated valid/non-canonical/pruned trees replayed into the parsers + TLC validation of results", ref="8/C10")
+CHECKS['C11'] = dict(
+    text="CheckProof / CheckBlockHeader / account acceptance are TLA+ predicates over cells (TonProof). Soundness and completeness of CheckProof "
+         "are model-checked with an injective symbolic hash over a bounded forgery space (every candidate body with any pruned token/depth vs "
+         "every target tree); completeness and pruning invariance on the directed pruning machine. Genuine proofs (TLC-enumerated prunings, random "
+         "DAGs, synthetic block/state/account scenarios) and nine families of forgeries are run through the three library checks and TLC decides "
+         "from the recorded cells, with real SHA-256, whether each had to be accepted.",
+    note="TonCell/TonProof transcriptions; proofs are assembled with the library Builder and library hashes (inputs only); account scenarios without extra currencies",
+    tech="TLC model check of proof soundness (symbolic hash) + TLC validation of accept/reject outcomes on recorded genuine and forged proofs", ref="8/C11")
+CHECKS['C12'] = dict(
+    text="The signature loop is a TLA+ algorithm (Start/Take/Decide with seen-set) model-checked to refine the declarative supermajority rule for all "
+         "validator sets <= 3 x weights 1..3 x signature sequences <= 3 (4 thorough); the variants without de-duplication or with >= are refuted "
+         "(negative controls run on every check). The same sets/sequences, realised with real Ed25519 keys, are fed to check_block_signatures and "
+         "TLC decides accept/reject per record; node-id and to-sign layouts are recomputed by TLC (SHA-256).",
+    note="Ed25519 itself is not specified: items are labelled valid/invalid/other/foreign by construction with PyNaCl; weights < 2^20",
+    tech="TLA+ quorum algorithm refinement model-checked by TLC (with negative controls) + TLC validation of recorded accept/reject outcomes", ref="8/C12")
+CHECKS['C13'] = dict(
+    text="TonAddr defines the raw and friendly text forms (tag, int8 workchain, CRC-16/XMODEM, both base64 alphabets). TLC proves ParseRender for all "
+         "256 workchains x 8 variants x hash patterns and, via CRC linearity, that none of the 48 x 63 single-symbol error patterns has a zero "
+         "syndrome (so every substitution of every address is detectable). The library renders/parses all workchains x variants and thousands of "
+         "substituted texts; TLC compares rendered text byte for byte and decides acceptance of each text with its own parser.",
+    note="TonAddr transcription; a substitution means a different 6-bit symbol in the variant's alphabet",
+    tech="TLA+ address/CRC spec: TLC lemma over all substitution patterns + TLC validation of recorded render/parse results", ref="8/C13")
 NOT_APPLICABLE = []
 def main():
     checks = []
